@@ -40,7 +40,7 @@ def main():
         for c in checks:
             env = dict(os.environ, VERIF_OUT="/tmp/seedkeep-out")
             os.makedirs("/tmp/seedkeep-out", exist_ok=True)
-            p = subprocess.run(["/verif/check", c, a.tier], env=env, capture_output=True, text=True, timeout=3000)
+            p = subprocess.run(["/verif/check", c, a.tier], env=env, capture_output=True, text=True, errors="replace", timeout=3000)
             out = p.stdout + p.stderr
             first = ""
             m = re.search(r"^  case=.*$", out, re.M)
